@@ -228,8 +228,15 @@ impl Ctx<'_> {
     #[cold]
     fn at_slow(&mut self, name: &'static str) -> bool {
         if !self.skip.is_empty() {
-            let sig = format!("{}|{}|{}", self.view, self.mseq, name);
-            if self.skip.contains(&sig) {
+            // a crash class is keyed by (view, family of the LAST mutator applied) - or, without any
+            // mutator, by (view, accessor); everything behind such a mutator is skipped once recorded
+            let sig = skip_key(self.view, &self.mseq, name);
+            let mut hit = self.skip.contains(&sig);
+            if !hit && self.mseq.contains('>') {
+                // a sequence containing a mutator that already crashes on its own
+                hit = self.mseq.split('>').any(|m| !m.starts_with('#') && self.skip.contains(&format!("{}:after:{}", self.view, family(m))));
+            }
+            if hit {
                 *self.acc.skipped.entry(sig).or_default() += 1;
                 return false;
             }
@@ -288,6 +295,19 @@ impl Ctx<'_> {
     }
 }
 
+/// name of a mutator without its argument: `unk.set_message_type(5)` -> `unk.set_message_type`
+pub fn family(m: &str) -> &str {
+    m.split(['(', '[']).next().unwrap_or(m)
+}
+/// canonical key of an operation for crash classes / the skip list
+pub fn skip_key(view: &str, mseq: &str, acc: &str) -> String {
+    if mseq.is_empty() || mseq.starts_with('#') {
+        // no mutator applied yet: the operation itself (a mutator that is being applied, or an accessor)
+        format!("{view}:{}", family(acc))
+    } else {
+        format!("{view}:after:{}", mseq.split('>').filter(|m| !m.starts_with('#')).map(family).collect::<Vec<_>>().join(">"))
+    }
+}
 /// call an accessor returning a plain value
 #[macro_export]
 macro_rules! acc {
